@@ -84,6 +84,10 @@ class Check:
     def anchor_lost(self, rule, msg):
         self.bad(rule, "anchor-lost", "anchor lost: %s" % msg)
 
+    def viol_new_possible(self):
+        open_keys = {k["key"] for k in load_known() if k["property"] == self.prop and k.get("status") == "open"}
+        return any(k not in open_keys and re.sub(r"@(nodefault|optall|security)$", "", k) not in open_keys for k in self.viol)
+
     # -- finish --
     def finish(self):
         known = [k for k in load_known() if k["property"] == self.prop]
@@ -103,7 +107,7 @@ class Check:
         stale = [k for k in open_keys if k not in seen_bases]
         for k in stale:
             print("note: known finding %s no longer reproduced by the check (fixed? update known_findings.jsonl)" % k)
-        rdir = os.path.join(VERIF, "reports", self.prop)
+        rdir = os.path.join(os.environ.get("VERIF_REPORT_DIR") or os.path.join(VERIF, "reports"), self.prop)
         os.makedirs(rdir, exist_ok=True)
         for rep in new:
             fname = re.sub(r"[^A-Za-z0-9_.-]+", "_", rep["key"])[:150] + ".json"
@@ -167,6 +171,7 @@ class Check:
             "wall_s": round(time.time() - self.t0, 2),
             "violations": len(new),
         }
-        os.makedirs(os.path.join(VERIF, "evidence"), exist_ok=True)
-        with open(os.path.join(VERIF, "evidence", self.prop + ".json"), "w") as f:
+        edir = os.environ.get("VERIF_EVIDENCE_DIR") or os.path.join(VERIF, "evidence")
+        os.makedirs(edir, exist_ok=True)
+        with open(os.path.join(edir, self.prop + ".json"), "w") as f:
             json.dump(ev, f, indent=1)
